@@ -20,6 +20,7 @@ func init() {
 			"R2: every non-reset store to the read or write index is followed, before the exit or the next use of that index, by the comparison of the updated index with len(buf) (== or >=) whose true edge resets it to 0 (or the stored value is taken modulo len(buf)). " +
 			"R3: the store in Write is dominated by the not-full edge of Len()==Cap() and the full edge returns an error wrapping ErrExhausted; the load in Read is dominated by the not-empty edge and the empty edge returns io.EOF; the load in At is dominated by the in-range edges of idx<0 || idx>=Len() and the out-of-range edge panics. " +
 			"R4: the constructor allocates size+1 slots and Cap() returns len(buf)-1. " +
+			"R6: the count a caller passes to Skip is clamped to Len() (guard or phi over the clamped edge) before it is added to an index. " +
 			"R5: where At folds read index + i back into the array, the fold (subtract len(buf)) is selected by the test >= len(buf): slot len(buf) does not exist.",
 		NotDecided: "FIFO order, the min(requested, Len) arithmetic of ReadN/Skip, the Len() formula: value statements. This is the thinnest claim of the twenty.",
 	})
@@ -206,11 +207,11 @@ func runC14(c *Ctx) {
 	c.R.Floor("C14.R1", 3)
 	c.R.Floor("C14.R2", 4)
 
-	// R3 guards and classes
 	lenCall := func(v ssa.Value) bool {
 		call, ok := ir.Resolve(v).(*ssa.Call)
 		return ok && ir.StaticCallee(call) == lenFn
 	}
+	// R3 guards and classes
 	capCall := func(v ssa.Value) bool {
 		call, ok := ir.Resolve(v).(*ssa.Call)
 		return ok && ir.StaticCallee(call) == capFn
@@ -333,6 +334,111 @@ func runC14(c *Ctx) {
 		}
 	}
 	c.R.Floor("C14.R3", 6)
+
+	// R6 request arguments are clamped against Len() before they enter index arithmetic
+	for _, fn := range methods {
+		if len(fn.Blocks) == 0 {
+			continue
+		}
+		for _, prm := range fn.Params[1:] {
+			if !types.Identical(prm.Type(), types.Typ[types.Int]) || fn == at {
+				continue
+			}
+			// values derived from the parameter through phis and subtraction of consumed counts
+			derived := map[ssa.Value]bool{prm: true}
+			for changed := true; changed; {
+				changed = false
+				ir.Instrs(fn, func(in ssa.Instruction) {
+					v, ok := in.(ssa.Value)
+					if !ok || derived[v] {
+						return
+					}
+					switch x := in.(type) {
+					case *ssa.Phi:
+						for _, e := range x.Edges {
+							if derived[e] {
+								derived[v] = true
+								changed = true
+							}
+						}
+					case *ssa.BinOp:
+						if x.Op == token.SUB && derived[x.X] {
+							derived[v] = true
+							changed = true
+						}
+					}
+				})
+			}
+			var bounded func(v ssa.Value, from, to *ssa.BasicBlock, depth int) bool
+			bounded = func(v ssa.Value, from, to *ssa.BasicBlock, depth int) bool {
+				if depth > 6 {
+					return false
+				}
+				if !derived[v] {
+					return true // Len(), indices, constants
+				}
+				var facts []ir.Fact
+				if from != nil {
+					facts = append(ir.Facts(from), edgeFacts(from, to)...)
+				} else if in, ok := v.(ssa.Instruction); ok {
+					facts = ir.Facts(in.Block())
+				}
+				for _, f := range facts {
+					cm, ok := f.Cmp()
+					if !ok {
+						continue
+					}
+					op, a, b := cm.Op, cm.X, cm.Y
+					if b == v {
+						a, b = b, a
+						op = ir.SwapOp(op)
+					}
+					if a == v && (op == token.LEQ || op == token.LSS) && (lenCall(b) || isLenBuf(b)) {
+						return true
+					}
+				}
+				if p, ok := v.(*ssa.Phi); ok {
+					for i, e := range p.Edges {
+						if e == v {
+							continue
+						}
+						if !bounded(e, p.Block().Preds[i], p.Block(), depth+1) {
+							return false
+						}
+					}
+					return true
+				}
+				if bo, ok := v.(*ssa.BinOp); ok && bo.Op == token.SUB {
+					return bounded(bo.X, from, to, depth+1)
+				}
+				return false
+			}
+			ir.Instrs(fn, func(in ssa.Instruction) {
+				bo, ok := in.(*ssa.BinOp)
+				if !ok || (bo.Op != token.ADD && bo.Op != token.MUL) {
+					return
+				}
+				for _, o := range []ssa.Value{bo.X, bo.Y} {
+					if !derived[o] {
+						continue
+					}
+					// counters (res += cnt) are not index arithmetic: only sums that involve an index field or len(buf)
+					other := bo.X
+					if o == bo.X {
+						other = bo.Y
+					}
+					_, isR := loadOfField(other, rIdx)
+					_, isW := loadOfField(other, wIdx)
+					if !isR && !isW && !isLenBuf(other) {
+						continue
+					}
+					c.Decide("C14.R6", fn, "requested count clamped to Len() before index arithmetic", in, bounded(o, nil, nil, 0),
+						"the caller's count enters index arithmetic without being clamped to Len(): a huge argument overflows (negative slice bound, panic) instead of moving min(requested, Len) elements")
+				}
+			})
+		}
+	}
+	c.R.Floor("C14.R6", 1)
 
 	// R4 geometry
 	{
